@@ -182,6 +182,15 @@ func (db *DB) compactionTransact(name string, t compactionTransactInterface) {
 			db.logf("%s retrying N·%d", name, n)
 		}
 
+		// Don't start (or retry) the step once the DB has a persistent
+		// error, e.g. after SetReadOnly: nothing may be written any more.
+		select {
+		case perr := <-db.compPerErrC:
+			db.logf("%s exiting (persistent error %q)", name, perr)
+			db.compactionExitTransact()
+		default:
+		}
+
 		// Execute.
 		cnt := compactionTransactCounter(0)
 		err := t.run(&cnt)
